@@ -710,25 +710,33 @@ class ScriptGen:
 # ----------------------------------------------------------------------------------------------------------------------
 # probes for the two side observations (run isolated, one script per process)
 # ----------------------------------------------------------------------------------------------------------------------
-def probe_scripts(pools):
+PROBE_INSTS = {
+    "x64": ["nop 0 - 0", "push 0 - 1 R:gp64:3", "mov 0 - 2 R:gp32:1 R:gp32:2", "shld 0 - 3 R:gp32:1 R:gp32:2 I:3",
+            "vpblendvb 0 - 4 R:xmm:1 R:xmm:2 R:xmm:3 R:xmm:4", "vpermil2ps 0 - 5 R:xmm:1 R:xmm:2 R:xmm:3 R:xmm:4 I:1",
+            "pcmpestri 0 - 6 R:xmm:1 R:xmm:2 I:3 R:gp32:1 R:gp32:0 R:gp32:2"],
+    "a64": ["nop 0 - 0", "br 0 - 1 G:x:3", "mov 0 - 2 G:x:1 G:x:2", "add 0 - 3 G:x:1 G:x:2 G:x:3", "madd 0 - 4 G:x:1 G:x:2 G:x:3 G:x:4"],
+}
+
+
+def probe_scripts(pools=None):
+    """fixed scripts (independent of seed and pools) for observations that need a dedicated history"""
     out = []
     for arch in ("x64", "a64"):
-        pool = pools[arch]
-        if not pool.plain:
-            continue
+        insts = PROBE_INSTS[arch]
         # (1) every node removed, then finalize()
-        e = pool.plain[0]
-        calls = [dict(cid=1, phase=1, kind="I", text="- " + e["tail"]), dict(cid=2, phase=1, kind="CM", text="cm_2")]
+        calls = [dict(cid=1, phase=1, kind="I", text="- " + insts[2]), dict(cid=2, phase=1, kind="CM", text="cm_2")]
         out.append(("empty-node-list", dict(sid="probe-empty-%s" % arch, arch=arch, flags=F_VALIDATE_ASM, secs=[], calls=calls,
                                             edits=[("rr", "S0", "2")], calls2=[], allow_empty=True)))
         # (2) InstNode made with new_inst_node() + set_op() for op_count operands + add_node()
-        by_nops = {}
-        for c in pool.plain:
-            by_nops.setdefault(c["nops"], c)
-        for nops in sorted(by_nops):
-            c = by_nops[nops]
+        for nops, tail in enumerate(insts):
             calls = [dict(cid=1, phase=1, kind="CM", text="cm_1")]
-            calls2 = [dict(cid=2, phase=2, kind="I", text="- " + c["tail"])]
+            calls2 = [dict(cid=2, phase=2, kind="I", text="- " + tail)]
             out.append(("new_inst_node:ops=%d" % nops, dict(sid="probe-ni%d-%s" % (nops, arch), arch=arch, flags=F_VALIDATE_ASM, secs=[], calls=calls,
                                                             edits=[("ni", "2", "")], calls2=calls2)))
+        # (3) `.byte L1 - L0` (delta 200) emitted into .data before both labels are bound in .text
+        calls = [dict(cid=1, phase=1, kind="NL", text="0 - 0 0", k=0), dict(cid=2, phase=1, kind="NL", text="1 - 0 0", k=1),
+                 dict(cid=3, phase=1, kind="SE", text="1", sec=1), dict(cid=4, phase=1, kind="LD", text="1 0 1", uses=[0, 1]),
+                 dict(cid=5, phase=1, kind="SE", text="0", sec=0), dict(cid=6, phase=1, kind="B", text="0", k=0, uses=[0]),
+                 dict(cid=7, phase=1, kind="EM", text="1f2003d5" * 50), dict(cid=8, phase=1, kind="B", text="1", k=1, uses=[1])]
+        out.append(("label-delta-200-in-1-byte", dict(sid="probe-delta-%s" % arch, arch=arch, flags=0, secs=[(".data", 0, 1, 1)], calls=calls, edits=[], calls2=[])))
     return out
